@@ -26,6 +26,28 @@ var trustedPanicSites = map[string]string{
 	"crypto.HashE|*(elem(P:publicKeys))":                                        "both callers (GenerateDLEQ, VerifyDLEQ) pass a literal list of keys obtained from PubKey()/NewPublicKey or from parameters that were parsed successfully",
 }
 
+// trustedOwnKeyLookup: dereference of M[k] where M is a crypto.PublicKeys map and k ranges over the keys of
+// that same map (collected into a slice, or through maps.Keys, possibly sorted). The invariant trusted is
+// that of the table entry for PublicKeys.MarshalJSON: the values of a PublicKeys map are never nil.
+func trustedOwnKeyLookup(c *Ctx, s *PanicSite) (string, bool) {
+	if s.Kind != "nilfield" || s.X == nil {
+		return "", false
+	}
+	e := c.P.OriginsOf(s.Fn).Of(s.X)
+	if e.K != "lookup" && e.K != "index" {
+		return "", false
+	}
+	m, k := e.Args[0], e.Args[1]
+	if m.V == nil || !strings.HasSuffix(m.V.Type().String(), "crypto.PublicKeys") {
+		return "", false
+	}
+	ms, ks := m.String(), k.String()
+	if ks == "key("+ms+")" || (strings.HasPrefix(ks, "elem(") && (strings.Contains(ks, "key("+ms+")") || strings.Contains(ks, "maps.Keys("+ms+")"))) {
+		return "the looked-up amounts are the keys of the same map; its values are public keys produced by key generation or by a successful ParsePubKey (never nil)", true
+	}
+	return "", false
+}
+
 func (c *Ctx) handlerScope() map[*ssa.Function]bool {
 	var roots []*ssa.Function
 	var ts []types.Type
@@ -60,6 +82,11 @@ func rulesC06(c *Ctx) {
 		fk := c.P.FuncKey(f)
 		for _, s := range c.PanicSites(f) {
 			key := fk + "|" + s.Desc
+			if why, ok := trustedOwnKeyLookup(c, s); ok {
+				R.Trust("panic site %s: %s", fk+"|own-key lookup in a public-key map", why)
+				R.Trivial("R1", fk, s.Kind+" "+s.Desc, c.P.InstrPos(s.Instr), "trusted: "+why)
+				continue
+			}
 			if why, ok := trustedPanicSites[key]; ok {
 				R.Trust("panic site %s: %s", key, why)
 				R.Trivial("R1", fk, s.Kind+" "+s.Desc, c.P.InstrPos(s.Instr), "trusted: "+why)
